@@ -37,7 +37,32 @@ class FaultRuntime(Fault, RuntimeError):
     pass
 
 
-FAULT_TYPES = [Fault, FaultKeyError, FaultValueError, FaultZeroDivision, FaultIndexError, FaultRuntime]
+class FaultStopIteration(Fault, StopIteration):
+    pass
+
+
+class FaultAttributeError(Fault, AttributeError):
+    pass
+
+
+class FaultTypeError(Fault, TypeError):
+    pass
+
+
+class FaultAssertion(Fault, AssertionError):
+    pass
+
+
+class FaultNotImplemented(Fault, NotImplementedError):
+    pass
+
+
+class FaultOSError(Fault, OSError):
+    pass
+
+
+FAULT_TYPES = [Fault, FaultKeyError, FaultValueError, FaultZeroDivision, FaultIndexError, FaultRuntime, FaultStopIteration,
+               FaultAttributeError, FaultTypeError, FaultAssertion, FaultNotImplemented, FaultOSError]
 
 
 class Ids:
@@ -69,12 +94,16 @@ class Rig:
 
     def __init__(self, rng, kind="sage", d=3, names_kind="str", dynamic=True, alpha=Q(1, 3), n_inner=1,
                  storage_kind="geom", storage_size=3, imputer_kind="joint", model_kind="scalar", loss_kind="arbitrary",
-                 lbb=False, interval_length=2, storage_length=3, default_ctor=False, extra_features=0):
+                 lbb=False, interval_length=2, storage_length=3, default_ctor=False, extra_features=0, positional=False):
         self.rng = rng
         self.kind = kind
         self.d = d
         self.names = list(NAME_SETS[names_kind][:d])
         self.extra = [f"extra{i}" for i in range(extra_features)]
+        # positional model (like SklearnWrapper without feature_names): reads the values of the dict in ITS key order; every instance of
+        # the data set uses one fixed column order that differs from the order of `feature_names`
+        self.positional = positional
+        self.column_order = list(reversed(self.names)) if positional else None
         self.dynamic = dynamic
         self.alpha = alpha
         self.n_inner = n_inner
@@ -121,6 +150,11 @@ class Rig:
 
     def _model_one(self, x):
         v = self.xlist(x)
+        if self.positional:
+            # by position: the k-th value of the dict is taken for column k of the data set
+            vals = [Q(val) for key, val in x.items() if key not in self.extra]
+            by_col = dict(zip(self.column_order, vals))
+            v = [by_col[f] for f in self.names]
         lin = self.coef[-1]
         for i, vi in enumerate(v):
             if i in self.ignored:
@@ -295,8 +329,10 @@ class Rig:
         x = {f: Q(self.rng.randint(-4, 4), self.rng.randint(1, 3)) for f in self.names}
         for e in self.extra:
             x[e] = Q(self.rng.randint(-4, 4))
-        # Python dict order is part of the input: shuffle it
+        # Python dict order is part of the input: shuffle it (a positional model needs the data set's fixed column order)
         items = list(x.items())
+        if self.positional:
+            return {f: x[f] for f in self.column_order}
         self.rng.shuffle(items)
         return dict(items)
 
